@@ -125,7 +125,7 @@ class Ctx:
         if self.state == "special":
             # values that coincide exactly with the scalars / with each other / with zero, and mixed signs: results
             # contain exact zeros (of either sign), infinities and NaNs, which must be numpy's, bit for bit
-            sp_ = [self.scalar(i), 0.0, -self.scalar(i), 1.0, -0.0, self.scalar(i + 1), 2.0 ** -1074, -1.0, np.nan, np.inf, -np.inf]
+            sp_ = [self.scalar(i), np.nan, 0.0, np.inf, -self.scalar(i), -0.0, -np.inf, 1.0, self.scalar(i + 1), 2.0 ** -1074, -1.0]
             vals = vals.copy()
             for k in range(vals.size):
                 if k % 2 == 0:
@@ -426,7 +426,7 @@ def _face_part(ctx, res):
         for c in U.COMP[:ctx.d]:
             arr = getattr(f, c) / 8.0 + (0.0 if signed else 0.5)
             if special:     # values equal to the scalar operands, zeros of both signs, negatives
-                sp_ = [1.5, 0.0, -1.5, 0.75, -0.0, 1.0, -0.75, 2.0 ** -1074, np.nan, np.inf, -np.inf]
+                sp_ = [1.5, np.nan, 0.0, np.inf, -1.5, 0.75, -0.0, -np.inf, 1.0, -0.75, 2.0 ** -1074]
                 for k in range(0, arr.size, 2):
                     arr.flat[k] = sp_[(k // 2 + i) % len(sp_)]
             setattr(f, c, arr)
